@@ -46,6 +46,7 @@ class Mod:
     via: str | None = None      # dep whose class this module re-exposes: via_m() -> dep.C_dep
     ignore_missing: bool = False
     base: str | None = None     # dep whose class C_m subclasses
+    ignored: set = field(default_factory=set)     # deps whose import line carries `# type: ignore`
 
 
 USE_KINDS = ["call", "val", "sub", "via"]
@@ -57,13 +58,15 @@ def render(m: Mod, world: "World") -> str:
     pref = {}
     for dep, style in m.imports.items():
         d = ident(dep)
+        ign = "  # type: ignore" if dep in m.ignored else ""
         if style == "import":
-            top.append(f"import {dep}")
+            top.append(f"import {dep}{ign}")
             pref[dep] = f"{dep}."
         elif style == "from":
             top.append(f"from {dep} import f_{d}, mk_{d}, C_{d}")
             if world.mods.get(dep) is not None and world.mods[dep].via:
                 top[-1] += f", via_{d}"
+            top[-1] += ign
             pref[dep] = ""
         else:
             pref[dep] = None
@@ -141,6 +144,8 @@ def _attach(rng, world: World, m: Mod, dep: str, allow_cycle: bool) -> None:
     if not allow_cycle and _reaches(world, dep, m.name):
         style = "func"
     m.imports[dep] = style
+    if rng.random() < 0.15:
+        m.ignored.add(dep)
     m.uses[dep] = rng.sample(USE_KINDS, rng.randint(1, 3))
     if m.via is None and style != "func" and rng.random() < 0.4:
         m.via = dep
@@ -175,7 +180,7 @@ def gen_world(rng, nmods: tuple[int, int] = (3, 6)) -> World:
     return w
 
 
-EDIT_KINDS = ["body", "signature", "signature", "attr", "meth", "toggle_error", "add_import", "remove_import",
+EDIT_KINDS = ["add_two_modules", "body", "signature", "signature", "attr", "meth", "toggle_error", "add_import", "remove_import",
               "add_module", "delete_module", "rename_module", "add_stub", "remove_stub", "touch", "make_cycle",
               "break_cycle", "change_via"]
 
@@ -224,6 +229,20 @@ def random_edit(rng, w: World, kinds: list[str] | None = None) -> dict:
             if rng.random() < 0.5:
                 _attach(rng, w, w.mods[n], rng.choice(names), allow_cycle=False)
             return {"kind": kind, "module": n, "importer": importer.name}
+        elif kind == "add_two_modules":
+            cand = [x for x in NAMES if x not in w.mods]
+            if len(cand) < 2:
+                continue
+            n1, n2 = rng.sample(cand, 2)
+            importer = w.mods[rng.choice(names)]
+            for n in (n1, n2):
+                w.mods[n] = Mod(n, val_t=rng.choice(TYPES), par_t=rng.choice(TYPES), ret_t=rng.choice(TYPES))
+                importer.imports[n] = rng.choice(["import", "from"])
+                importer.uses[n] = rng.sample(["call", "val"], 1)
+            if rng.random() < 0.6:      # one of the new modules imports the importer back (a new cycle)
+                w.mods[n2].imports[importer.name] = "import"
+                w.mods[n2].uses[importer.name] = ["call"]
+            return {"kind": kind, "modules": [n1, n2], "importer": importer.name}
         elif kind == "delete_module":
             if len(names) <= 2:
                 continue
@@ -515,3 +534,11 @@ USER_PREFIXES = ("m0", "m1", "m2", "m3", "m4", "pkg")
 
 def user_modules(mods) -> list[str]:
     return sorted(m for m in (mods or []) if m.split(".")[0] in USER_PREFIXES)
+
+
+def entry_targets(rng, w: World) -> list[str]:
+    """Entry-point mode: check only 1–2 root files and let import following find the rest."""
+    imported = {d for m in w.mods.values() for d in m.imports}
+    roots = sorted(n for n in w.mods if n not in imported) or sorted(w.mods)
+    pick = rng.sample(roots, min(len(roots), rng.randint(1, 2)))
+    return [n.replace(".", "/") + ".py" for n in pick]
